@@ -369,6 +369,26 @@ def run(ctx):
         verdict = any(s["k"] == "assign" and not s["p"][1] and s["rv"]["k"] == "bin" and s["rv"]["op"] == "Ne" and
                       (s["p"][0] == 0 or 0 in b.slice_fwd([s["p"][0]])[0]) for blk in b.rpo() for s in b.stmts(blk))
         ctx.ob("F4", b.defp, "verdict-is-bit-newly-set", where, verdict, "returns old != new", ordinal=False)
+        # ids are compared by subtracting from the larger one: the whole 64-bit range is legal (both call sites pass u64::MAX as the limit), so
+        # *adding* a window or block constant to an id that came off the wire overflows for the last ids below u64::MAX - a panic in
+        # overflow-checked builds, a wrapped sum (a fresh id judged stale, or a stale one fresh) otherwise
+        adds = []
+        for blk in b.rpo():
+            for s in b.stmts(blk):
+                if s["k"] == "assign" and s["rv"]["k"] == "bin" and s["rv"]["op"] in ("Add", "AddWithOverflow", "AddUnchecked"):
+                    for side, other in ((s["rv"]["a"], s["rv"]["b"]), (s["rv"]["b"], s["rv"]["a"])):
+                        q = op_place(side)
+                        if q is None or b.local_ty(q[0]) != "u64":
+                            continue
+                        ql, qcalls, _ = b.slice_back([q[0]], stop_call=lambda c_: True)
+                        from_id = 2 in ql and not any(True for l_ in ql for d_ in b.defs().get(l_, []) if d_[0] == "assign" and d_[3]["rv"]["k"] == "bin" and d_[3]["rv"]["op"] in ("Shr", "ShrUnchecked", "BitAnd", "Sub", "SubWithOverflow"))
+                        k = op_int(other)
+                        if from_id and (k is None or k != 0):
+                            adds.append(loc(s["sp"]))
+        ctx.ob("F4", b.defp, "no-addition-to-a-wire-id", adds[0] if adds else where, not adds,
+               "packet ids are only compared, subtracted from a larger id, shifted or masked" if not adds else
+               "a constant is added to the packet id as it came off the wire: for the last ids below u64::MAX (legal: the limit passed in is u64::MAX) the sum overflows - the filter "
+               "panics in overflow-checked builds and mis-judges the id otherwise", ordinal=False)
 
 
 def f5_association_removed_only_by_expiry(ctx):
